@@ -41,6 +41,12 @@ CLAIMED = {
  "C09": ("exploration", "bounded-exhaustive render histories over hand-written stateful template families + proptest histories over generated templates; oracle = first occurrence and fresh-parser differential",
          "Every history of <=3 render calls over 3 families of 3 stateful templates x 3 data objects sharing one parser with a lazy partial store (cycle, counters, ifchanged, capture failing midway, break/continue, variable range bounds, partials that cycle/assign/break/fail, broken and missing partials); random histories of up to 6 (thorough 10) calls over generated templates. Each call's result must equal its first occurrence and the same call on a freshly built parser; data objects deep-compared.",
          "Differential against the engine itself on a fresh parser (state leaks show as differences); multi-key object iteration never observed; explosive generated programs are discarded by a cost estimate before running.", "4.9"),
+ "C10": ("fault_enumeration", "exhaustive enumeration of the failing write call k in 1..W (three failure modes) for hand-written and proptest-generated templates, plus short-count sinks, against a prefix/stop/error oracle",
+         "For every template the fault-free run gives W write calls and the byte string S; every k in 1..W is injected as an error, as a one-byte short count followed by an error, and as Ok(0); two never-failing chunked sinks. Checked per injection: render_to returns Err, the sink is not called again, accepted bytes equal the fault-free prefix, no panic; streamed bytes equal render().",
+         "Exhaustive over fault points per generated template, templates themselves sampled; ErrorKind::Interrupted (legitimately retried by write_all) is never injected.", "4.10"),
+ "C19": ("exploration", "proptest scenarios (valid/broken/absent partials, dynamic names, dead paths) rendered under the three compilation policies; differential between policies, repeat renders and removal of broken partials",
+         "Each generated scenario (C08 generator + enumerated call forms) builds eager, lazy and on-demand parsers over the in-memory source and renders the main template 1..3 times interleaved with an unrelated template: build must succeed, status/output must agree across policies and across repeats, replacing a broken partial by an absent one must change nothing.",
+         "Differential between the three implementations; error message texts are not compared.", "4.19"),
 }
 
 NOT_YET = {
